@@ -416,7 +416,8 @@ def run(ctx):
             ctx.nontrivial(json.dumps([meta["codec"], meta["request"],
                                        hashlib.sha1(bytes(meta["buf"])).hexdigest()]))
         if clause.startswith("machinery:"):
-            raise tlc.MachineryError("Trace_CSeg reported %s for %s" % (clause, detail_of(case, meta)))
+            ctx.undecided("Trace_CSeg reported %s for %s" % (clause, detail_of(case, meta)))
+            continue
         if st != "ok":
             ctx.violation(clause, sig_of(case, meta, clause, design), detail_of(case, meta))
         elif clause.startswith("design:"):
